@@ -1030,6 +1030,13 @@ func (s *SecureChannel) sendAsyncWithTimeout(
 	instance.Lock()
 	defer instance.Unlock()
 
+	// a request whose context has already ended must neither consume a
+	// sequence number nor register a handler: the number would be missing
+	// on the wire and the next chunk would not follow its predecessor.
+	if err := ctx.Err(); err != nil {
+		return nil, err
+	}
+
 	m, err := instance.newRequestMessage(req, reqID, authToken, timeout)
 	if err != nil {
 		return nil, err
@@ -1058,10 +1065,14 @@ func (s *SecureChannel) sendAsyncWithTimeout(
 	}
 
 	for i, chunk := range chunks {
-		select {
-		case <-ctx.Done():
-			return nil, ctx.Err()
-		default:
+		// the first chunk carries the sequence number taken above and is
+		// always written; the context is looked at between chunks.
+		if i > 0 {
+			select {
+			case <-ctx.Done():
+				return nil, ctx.Err()
+			default:
+			}
 		}
 		if i > 0 { // fix sequence number on subsequent chunks
 			number := instance.nextSequenceNumber()
